@@ -10,6 +10,8 @@
 (*   {"ev":"begin","id":i,"q":..,"g":..,"cost":c,"out":..} / {"ev":"end","id":i}*)
 (*        a request handled concurrently with others; its linearization point   *)
 (*        is placed by TLC between the two (Lin), judged in mode "conc".        *)
+(*   {"ev":"storm","q":..,"g":..,"cost":c,"n":n,"admitted":a}  n simultaneous    *)
+(*        identical requests (many goroutines), a of them admitted               *)
 (*   {"ev":"resetin","q":..}                        reset-in query: no effect   *)
 EXTENDS TraceLib, Integers, FiniteSets
 
@@ -48,6 +50,9 @@ TAdv == Consume("adv") /\ P!Advance(Ev.d) /\ UNCHANGED <<pend, done>>
 
 TArrive == Consume("arrive") /\ pend = {} /\ P!Arrive(Ev.q, Ev.g, Ev.cost, Ev.out, "seq") /\ UNCHANGED <<pend, done>>
 
+\* a storm of simultaneous identical requests, recorded as one event (how many of the n were admitted)
+TStorm == Consume("storm") /\ pend = {} /\ P!Storm(Ev.q, Ev.g, Ev.cost, Ev.n, Ev.admitted) /\ UNCHANGED <<pend, done>>
+
 TResetIn == Consume("resetin") /\ UNCHANGED <<now, lo, hi, charged, admitted, last, pend, done>>
 
 TBegin ==
@@ -66,7 +71,7 @@ TEnd ==
     /\ done' = done \ {Ev.id}
     /\ UNCHANGED <<now, lo, hi, charged, admitted, last, pend>>
 
-TNext == TReset \/ TAdv \/ TArrive \/ TResetIn \/ TBegin \/ TLin \/ TEnd
+TNext == TReset \/ TAdv \/ TArrive \/ TStorm \/ TResetIn \/ TBegin \/ TLin \/ TEnd
 
 TraceSpec == TInit /\ [][TNext]_tvars
 
